@@ -20,6 +20,16 @@ Theorem C53_jail_after_threshold : forall c t1 ts t,
 Proof. exact jail_after_threshold_lemma. Qed.
 Print Assumptions C53_jail_after_threshold.
 
+(* Requests below the threshold are never denied.  For every rule (period >= 0) and every non-decreasing sequence
+   of request times of one key, starting from an unknown key: if every window [a, a+period] that starts at one of
+   the request times a contains at most threshold requests (count_in), then no request is denied. *)
+Theorem C53_below_threshold_never_denied : forall c ts,
+  0 <= c_period c -> (match ts with [] => True | t :: r => nondecr t r end) ->
+  (forall a, In a ts -> count_in ts a (a + c_period c) <= c_threshold c) ->
+  run1 c (None, None) ts = repeat false (length ts).
+Proof. exact below_threshold_never_denied_lemma. Qed.
+Print Assumptions C53_below_threshold_never_denied.
+
 (* While in prison: every request of the key at a time before the free time f is denied and leaves the
    prison record unchanged (denied requests are not counted and do not extend the sentence). *)
 Theorem C53_stays_jailed : forall c f ts, Forall (fun t => t < f) ts ->
